@@ -24,6 +24,7 @@ import (
 	"strconv"
 	"strings"
 	"sync/atomic"
+	"time"
 
 	"github.com/aclements/go-moremath/verifhook"
 
@@ -339,6 +340,35 @@ func modePurity(shard, nshards, variants int) {
 			if other, _ := runEntry(i, g); !bytes.Equal(first, other) {
 				out.fail("nondeterministic:"+e.Name, fmt.Sprintf("%s returned different results on two equal fixtures (variant %d)", e.Name, v), c)
 			}
+			mapOrders(i, v, first, c)
+		}
+	}
+}
+
+// mapOrders re-runs entry i under every map-iteration order mode: the order in
+// which a range over a map visits its keys is decided by the harness in the
+// instrumented copy, and the result must not depend on it.
+func mapOrders(i, v int, first []byte, c Case) {
+	e := alpha.Entries[i]
+	before := verifhook.MapRangesRun
+	runEntry(i, alpha.NewFix(v))
+	if verifhook.MapRangesRun == before {
+		return // this call never iterates over a map
+	}
+	out.Counters["calls_iterating_over_a_map"]++
+	defer atomic.StoreInt32(&verifhook.MapMode, 0)
+	for mode := int32(1); mode < 6; mode++ {
+		atomic.StoreInt32(&verifhook.MapMode, mode)
+		res, p := runEntry(i, alpha.NewFix(v))
+		out.Transitions++
+		out.Counters["map_order_runs"]++
+		if p != "" {
+			out.fail("map-order:"+e.Name, fmt.Sprintf("%s panicked under map iteration order %d (fixture variant %d): %s", e.Name, mode, v, p), c)
+			return
+		}
+		if !bytes.Equal(first, res) {
+			out.fail("map-order:"+e.Name, fmt.Sprintf("%s depends on the iteration order of a map: order mode %d gives %s, canonical order gives %s (fixture variant %d)", e.Name, mode, alpha.Describe(res), alpha.Describe(first), v), c)
+			return
 		}
 	}
 }
@@ -637,6 +667,17 @@ func (x *exec) choices() []int {
 	return d
 }
 
+var lastBeat = time.Now()
+
+// heartbeat tells the driver (on stderr) that the exploration is advancing: every
+// exploration is bounded by its step budget, so a beating process terminates.
+func heartbeat() {
+	if time.Since(lastBeat) > 5*time.Second {
+		lastBeat = time.Now()
+		fmt.Fprintln(os.Stderr, "HB")
+	}
+}
+
 // explore enumerates every schedule of the given threads with at most bound
 // preemptions (iterative context bounding); check is called for every
 // execution. A schedule is a list of deviations from the default schedule, so
@@ -659,6 +700,7 @@ func explore(threads []int, bound int, maxSteps int64, shard, nshards int, check
 			check(x)
 		}
 		steps += int64(len(x.points))
+		heartbeat()
 		if maxSteps > 0 && steps >= maxSteps {
 			capped = true
 			return
@@ -858,6 +900,7 @@ func modeReplay(js string, fresh [][]byte) {
 				out.fail("nondeterministic:"+e.Name, "different result on repetition", c)
 			}
 		}
+		mapOrders(c.Entry, c.Variant, first, c)
 	case "varhist":
 		runEntry(c.Entry, alpha.NewFix(c.Seq[0]))
 		a, _ := runEntry(c.Entry, alpha.NewFix(c.Seq[1]))
